@@ -319,6 +319,16 @@ def install(I):
         a = as_narr(I, ctx, v)
         if a is None:
             return NArr(1, lambda i: v, "float", "0d") if False else Opaque(None, "0d-array", {"scalar": True, "value": v})
+        if a.dtype == "object" and not isinstance(v, NArr):
+            probe = a.elem(z3.Int(ctx.fresh_name("row_probe")))
+            if isinstance(probe, NArr):
+                # a sequence of 1-D arrays: a 2-D array whose row k is the k-th of them (rows of one length: the length of a
+                # row may not depend on the row)
+                ctx.assumed_ext.add("numpy.array / asarray of a sequence of equally long 1-D arrays: the 2-D array whose row k is the k-th of them")
+                cols = probe.n
+                if not isinstance(cols, int) and "row_probe" in str(cols):
+                    raise Unsupported("rows of differing lengths")
+                return NArr2(a.n, cols, lambda i, j, a=a: a.elem(i).elem(j), probe.dtype, "rows")
         r = NArr(a.n, a.elem, a.dtype, "array")
         return arr_astype(I, ctx, r, dtype) if dtype is not None else r
 
@@ -783,6 +793,18 @@ def order_le(ctx, x, y):
             ctx.assume(z3.ForAll([a, b], z3.Implies(z3.And(LE(a, b), LE(b, a)), a == b), patterns=[z3.MultiPattern(LE(a, b), LE(b, a))]))
             ctx.assume(z3.ForAll([a, b, c], z3.Implies(z3.And(LE(a, b), LE(b, c)), LE(a, c)), patterns=[z3.MultiPattern(LE(a, b), LE(b, c))]))
         return LE(x.e, y.e)
+    if isinstance(x, (Inf, MaybeInf)) or isinstance(y, (Inf, MaybeInf)):
+        # extended reals: -inf <= everything, everything <= +inf
+        def parts(v):
+            if isinstance(v, Inf):
+                return z3.BoolVal(v.positive), z3.BoolVal(not v.positive), None
+            if isinstance(v, MaybeInf):
+                return v.isinf, v.isneg, v.val
+            return z3.BoolVal(False), z3.BoolVal(False), v
+        px, nx, vx = parts(x)
+        py, ny, vy = parts(y)
+        fin = z3.BoolVal(True) if vx is None or vy is None else (B.zreal(vx) <= B.zreal(vy))
+        return z3.Or(nx, py, z3.And(z3.Not(px), z3.Not(ny), fin))
     return B.zreal(x) <= B.zreal(y)
 
 
@@ -795,6 +817,8 @@ def install_sorting(I):
 
     def argsort(ctx, a, **kw):
         ctx.assumed_ext.add("numpy.argsort(a): a permutation p of the positions with a[p] in non-decreasing order (stability not assumed)")
+        if isinstance(a, NArr2):
+            return argsort2(ctx, a, **kw)
         a = as_narr(I, ctx, a)
         n = zn(a)
         SIG = z3.Function(ctx.fresh_name("SIG"), z3.IntSort(), z3.IntSort())
@@ -809,6 +833,35 @@ def install_sorting(I):
                              patterns=[z3.MultiPattern(SIG(p), SIG(q))]))
         r = NArr(a.n, lambda i: Sym(SIG(B._z(i))), "int", "argsort")
         r.perm = (SIG, INV)
+        return r
+    def argsort2(ctx, a, axis=-1, **kw):
+        """row-wise argsort of a 2-D array (last axis): per row a permutation (with its inverse) putting the row in non-decreasing
+        order. Sorting a result of argsort again: the sorting permutation of a permutation is its inverse - a lemma (proved by
+        induction in the lemma library of contracts/c10_groups.py), applied here as a ghost step whose premises are obligations."""
+        if axis not in (-1, 1):
+            raise Unsupported("2-D argsort along axis 0")
+        ctx.assumed_ext.add("numpy.argsort(M) of a 2-D array: per row a permutation p of the columns with M[row, p] in non-decreasing order (stability not assumed)")
+        rows, n = B._z(a.rows), B._z(a.cols)
+        SIG = z3.Function(ctx.fresh_name("SIG2"), z3.IntSort(), z3.IntSort(), z3.IntSort())
+        INV = z3.Function(ctx.fresh_name("SIG2INV"), z3.IntSort(), z3.IntSort(), z3.IntSort())
+        g, p, q = z3.Int(ctx.fresh_name("g_s")), z3.Int(ctx.fresh_name("p_s")), z3.Int(ctx.fresh_name("q_s"))
+        inrow = z3.And(g >= 0, g < rows)
+        ctx.assume(z3.ForAll([g, p], z3.Implies(z3.And(inrow, p >= 0, p < n), z3.And(SIG(g, p) >= 0, SIG(g, p) < n, INV(g, SIG(g, p)) == p)), patterns=[SIG(g, p)]))
+        ctx.assume(z3.ForAll([g, p], z3.Implies(z3.And(inrow, p >= 0, p < n), z3.And(INV(g, p) >= 0, INV(g, p) < n, SIG(g, INV(g, p)) == p)), patterns=[INV(g, p)]))
+        ctx.assume(z3.ForAll([g, p, q], z3.Implies(z3.And(inrow, 0 <= p, p < q, q < n), order_le(ctx, a.elem(g, SIG(g, p)), a.elem(g, SIG(g, q)))),
+                             patterns=[z3.MultiPattern(SIG(g, p), SIG(g, q))]))
+        r = NArr2(a.rows, a.cols, lambda i, j: Sym(SIG(B._z(i), B._z(j))), "int", "argsort2")
+        r.perm2 = (SIG, INV)
+        ctx.ghost.setdefault("argsort2_perms", []).append((SIG, INV))
+        inner = getattr(a, "perm2", None)
+        if inner is not None:
+            P, Q = inner
+            ctx.apply_lemma("the-sorting-permutation-of-a-permutation-is-its-inverse",
+                            [("the-sorted-rows-are-permutations-with-an-inverse",
+                              z3.ForAll([g, p], z3.Implies(z3.And(inrow, p >= 0, p < n), z3.And(P(g, p) >= 0, P(g, p) < n, Q(g, P(g, p)) == p, Q(g, p) >= 0, Q(g, p) < n, P(g, Q(g, p)) == p)))),
+                             ("the-result-sorts-them",
+                              z3.ForAll([g, p, q], z3.Implies(z3.And(inrow, 0 <= p, p < q, q < n), P(g, SIG(g, p)) <= P(g, SIG(g, q)))))],
+                            z3.ForAll([g, p], z3.Implies(z3.And(inrow, p >= 0, p < n), SIG(g, p) == Q(g, p)), patterns=[SIG(g, p)]))
         return r
     np_tab["argsort"] = Builtin("numpy.argsort", argsort)
 
@@ -984,6 +1037,8 @@ def install2(I):
 def narr2_getattr(I, ctx, a, name):
     if name == "T":
         return NArr2(a.cols, a.rows, lambda i, j: a.elem(j, i), a.dtype, "T")
+    if name == "transpose":
+        return Builtin("transpose", lambda ctx2: NArr2(a.cols, a.rows, lambda i, j: a.elem(j, i), a.dtype, "T"))
     if name == "sum":
         def s(ctx2, axis=None):
             if axis != 1:
@@ -1008,4 +1063,15 @@ def narr2_getitem(I, ctx, a, k):
             drop_end = 0 if hi is None else -hi
             cols = smt.simp(B._z(a.cols) - off - drop_end)
             return NArr2(a.rows, cols, lambda i, j: a.elem(i, smt.simp(B._z(j) + off)), a.dtype, "colslice")
+        if isinstance(r, NArr) and isinstance(c, NArr) and r.dtype in ("int", "uint8") and c.dtype in ("int", "uint8"):
+            # M[rows, cols] with two index vectors: element i is M[rows[i], cols[i]]; indices inside the array are an obligation
+            # (numpy raises IndexError outside [-n, n); negative ones would wrap)
+            ctx.assumed_ext.add("2-D fancy indexing M[r, c][i] = M[r[i], c[i]] for index vectors of one length")
+            if not ctx.branch(zn(r) == zn(c)):
+                raise I.raise_exc("IndexError")
+            i = z3.Int(ctx.fresh_name("i_fx"))
+            ri, ci = B.zint(r.elem(i)), B.zint(c.elem(i))
+            ctx.oblige("fancy-index.requires.indices-inside-the-array",
+                       z3.ForAll([i], z3.Implies(z3.And(i >= 0, i < zn(r)), z3.And(ri >= 0, ri < B._z(a.rows), ci >= 0, ci < B._z(a.cols)))), kind="requires")
+            return NArr(r.n, lambda x: a.elem(smt.simp(B.zint(r.elem(x))), smt.simp(B.zint(c.elem(x)))), a.dtype, "fancy2")
     raise Unsupported(f"2-D index {k!r}")
